@@ -4,7 +4,9 @@ From Coq Require Import Reals ZArith List Lra.
 From Celer Require Import Base.Num Base.NumR Base.Stream Base.Vec3 C15.Samplers C15.SamplersProofs
   C04.Common C04.CommonProofs C04.KleinNishina C04.KleinNishinaProofs
   C04.EPlusGG C04.EPlusGGProofs C04.Ionization C04.IonizationProofs
-  C04.BetheHeitler C04.BetheHeitlerProofs C04.Rayleigh C04.FinalStates C04.FinalStatesProofs.
+  C04.BetheHeitler C04.BetheHeitlerProofs C04.Rayleigh C04.FinalStates C04.FinalStatesProofs
+  C04.AcceptProofs C04.BHAcceptProofs C04.RayleighProofs C04.RayleighTable C04.RayleighTableProofs
+  C04.BremEnergy C04.BremEnergyProofs C04.Chips C04.ChipsProofs.
 Import ListNotations.
 Local Open Scope R_scope.
 
@@ -382,3 +384,255 @@ Proof.
   destruct (Rleb_spec (1 / 100) (1 / 20)) as [H2|H2]; [|lra].
   eexists; eexists; split; reflexivity.
 Qed.
+
+(** ** Round 3: acceptance lower bounds / termination of the remaining rejection loops *)
+(** e+ annihilation: every candidate epsilon of the loop's own proposal is rejected with probability
+    <= 1 - p_min(tau), p_min(tau) = 2 (tau+1)/(tau+2)^2 > 0, decreasing in tau = T/mc^2 *)
+Theorem C04_eplusgg_accept_lower_bound : forall tau eps : R, 0 < tau ->
+  let q := sqrt (tau / (tau + 2)) * (1 / 2) in
+  1 / 2 - q <= eps <= 1 / 2 + q ->
+  ep_reject_prob tau eps <= 1 - ep_pmin tau /\ 0 < ep_pmin tau.
+Proof. exact ep_accept_lower_bound. Qed.
+Print Assumptions C04_eplusgg_accept_lower_bound.
+
+Theorem C04_eplusgg_terminates_on_high_draw : forall (tau : R) fuel u t s, 0 < tau ->
+  canonical u -> 1 - ep_pmin tau <= t ->
+  exists eps, ep_loop (S fuel) tau (u :: t :: s) = Some (eps, s) /\
+    1 / 2 - ep_sqgrate tau <= eps <= 1 / 2 + ep_sqgrate tau.
+Proof. exact ep_terminates_on_high_draw. Qed.
+Print Assumptions C04_eplusgg_terminates_on_high_draw.
+
+(** uniform on the applicability interval (0, tau_max] (T_max = 1e8 MeV): p_min(tau_max) *)
+Theorem C04_eplusgg_terminates_uniform : forall (tau tmax : R) fuel u t s, 0 < tau <= tmax ->
+  canonical u -> 1 - ep_pmin tmax <= t ->
+  exists eps, ep_loop (S fuel) tau (u :: t :: s) = Some (eps, s).
+Proof. exact ep_terminates_uniform. Qed.
+Print Assumptions C04_eplusgg_terminates_uniform.
+
+(** no bound independent of the energy: the candidate at the top of the epsilon interval is accepted
+    with probability <= 3/(tau+2) *)
+Theorem C04_eplusgg_accept_uniform_in_tau_refuted : forall tau : R, 0 < tau ->
+  let eps := 1 / 2 + sqrt (tau / (tau + 2)) * (1 / 2) in
+  1 - ep_reject_prob tau eps <= 3 / (tau + 2).
+Proof. exact ep_accept_uniform_in_tau_refuted. Qed.
+Print Assumptions C04_eplusgg_accept_uniform_in_tau_refuted.
+
+Theorem C04_moller_accept_lower_bound : forall gamma eps : R, 1 <= gamma -> 0 <= eps <= 1 / 2 ->
+  4 / 9 * moller_g gamma (1 / 2) <= moller_g gamma eps /\ 0 < moller_g gamma (1 / 2).
+Proof. exact moller_accept_lower_bound. Qed.
+Print Assumptions C04_moller_accept_lower_bound.
+
+Theorem C04_moller_terminates_on_low_draw : forall (me cut e_inc : R) fuel u t s,
+  0 < me -> 0 < cut -> 2 * cut <= e_inc -> canonical u -> 0 <= t <= 4 / 9 ->
+  exists eps, eps_loop (S fuel) (1 / (1 / 2)) (1 / (cut / e_inc))
+                (moller_g (1 + e_inc / me)) (moller_g (1 + e_inc / me) (1 / 2)) (u :: t :: s) = Some (eps, s) /\
+    cut / e_inc <= eps <= 1 / 2.
+Proof. exact moller_terminates_on_low_draw. Qed.
+Print Assumptions C04_moller_terminates_on_low_draw.
+
+Theorem C04_bhabha_accept_lower_bound : forall gamma minf eps : R, 1 <= gamma -> 0 <= minf <= 1 -> 0 <= eps <= 1 ->
+  1 / 10 * bhabha_g gamma minf 1 <= bhabha_g gamma eps eps /\ 0 < bhabha_g gamma minf 1.
+Proof. exact bhabha_accept_lower_bound. Qed.
+Print Assumptions C04_bhabha_accept_lower_bound.
+
+Theorem C04_bhabha_terminates_on_low_draw : forall (me cut e_inc : R) fuel u t s,
+  0 < me -> 0 < cut <= e_inc -> canonical u -> 0 <= t <= 1 / 10 ->
+  exists eps, eps_loop (T:=R) (S fuel) (1 / 1) (1 / (cut / e_inc))
+                (fun e : R => bhabha_g (1 + e_inc / me) e e) (bhabha_g (1 + e_inc / me) (cut / e_inc) 1)
+                (u :: t :: s) = Some (eps, s) /\ cut / e_inc <= eps <= 1.
+Proof. exact bhabha_terminates_on_low_draw. Qed.
+Print Assumptions C04_bhabha_terminates_on_low_draw.
+
+(** MuBB up to 1e8 MeV (the two magnitude hypotheses hold there: AcceptProofs.mubb_accept_nonvacuous) *)
+Theorem C04_mubb_accept_lower_bound : forall (p : mh_params R) (tmax energy : R),
+  mh_kind_ p = KMuBB -> 0 < mh_minc p -> 0 < mh_me p -> 0 < mh_energy p ->
+  0 < energy <= tmax -> tmax <= mh_energy p ->
+  1 + 2 * tmax / mh_me p <= 400000000 -> 2 * (mh_energy p + mh_minc p) / mh_minc p <= 2000000 ->
+  2 / 5 * (1 - beta_sq (mh_minc p) (mh_energy p)) * mh_envelope p tmax <= mh_target p tmax energy /\
+  0 < 1 - beta_sq (mh_minc p) (mh_energy p) /\ 1 <= mh_envelope p tmax.
+Proof. exact mubb_accept_lower_bound. Qed.
+Print Assumptions C04_mubb_accept_lower_bound.
+
+Theorem C04_mubb_terminates_on_low_draw : forall (p : mh_params R) (tmax : R) fuel u t s,
+  mh_kind_ p = KMuBB -> 0 < mh_minc p -> 0 < mh_me p -> 0 < mh_energy p ->
+  0 < mh_tmin p < tmax -> tmax <= mh_energy p ->
+  1 + 2 * tmax / mh_me p <= 400000000 -> 2 * (mh_energy p + mh_minc p) / mh_minc p <= 2000000 ->
+  canonical u -> 0 <= t <= 2 / 5 * (1 - beta_sq (mh_minc p) (mh_energy p)) ->
+  exists e, mh_loop (S fuel) p tmax (u :: t :: s) = Some (e, s) /\ mh_tmin p <= e <= tmax.
+Proof. exact mubb_terminates_on_low_draw. Qed.
+Print Assumptions C04_mubb_terminates_on_low_draw.
+
+(** the kinematic maximum never exceeds the incident kinetic energy (hypothesis tmax <= E above) *)
+Theorem C04_tmax_le_energy : forall m_inc e_inc m_e : R, 0 < m_inc -> 0 < m_e -> 0 <= e_inc ->
+  tmax_R m_inc e_inc m_e <= e_inc.
+Proof. exact tmax_R_le_energy. Qed.
+Print Assumptions C04_tmax_le_energy.
+
+(** Bethe-Heitler: NO positive per-candidate bound.  In the screened regime (eps_min = eps1 > eps0; inhabited:
+    BHAcceptProofs.bh_witness_screened, 2 MeV photon on hydrogen) the candidate with u = 0 in the uniform branch
+    has rejection-function value exactly 0 and is rejected by every positive test draw. *)
+Theorem C04_bh_accept_lower_bound_refuted : forall (p : bh_params R) f10 f20 fuel u1 t s, bh_screened p ->
+  let st := (1 / 2 - bh_eps_min p) * (1 / 2 - bh_eps_min p) * f10 in
+  let sf := 15 / 10 * f20 in
+  st / (st + sf) <= u1 -> 0 < t ->
+  bh_loop (S fuel) p (bh_eps_min p) (bh_fz p) f10 f20 (u1 :: 0 :: t :: s) =
+  bh_loop fuel p (bh_eps_min p) (bh_fz p) f10 f20 s.
+Proof. exact bh_accept_lower_bound_refuted. Qed.
+Print Assumptions C04_bh_accept_lower_bound_refuted.
+
+Theorem C04_bh_screened_regime_inhabited : bh_screened bh_witness.
+Proof. exact (proj1 bh_witness_screened). Qed.
+Print Assumptions C04_bh_screened_regime_inhabited.
+
+(** what holds: three draws per iteration; a candidate at eps = 1/2 is accepted by every test draw *)
+Theorem C04_bh_terminates_on_symmetric_candidate : forall (p : bh_params R) eps_min fuel u1 t s,
+  0 < bh_f1 (bh_delta_min p) - bh_fz p -> 0 < bh_me p -> 0 < bh_energy p -> 0 < bh_cbrt_z p ->
+  let f10 := bh_f1 (bh_delta_min p) - bh_fz p in
+  let f20 := bh_f2 (bh_delta_min p) - bh_fz p in
+  u1 < (1 / 2 - eps_min) * (1 / 2 - eps_min) * f10 / ((1 / 2 - eps_min) * (1 / 2 - eps_min) * f10 + 15 / 10 * f20) ->
+  canonical t ->
+  bh_loop (S fuel) p eps_min (bh_fz p) f10 f20 (u1 :: 0 :: t :: s) = Some (1 / 2, s).
+Proof. exact bh_terminates_on_symmetric_candidate. Qed.
+Print Assumptions C04_bh_terminates_on_symmetric_candidate.
+
+(** ** Rayleigh, full validity under the data hypothesis [ry_ok] (b > 0, 1/100 <= n <= 50; checked at run time
+    on all 100 elements of RayleighModel.cc and on the parameters read back from the real RayleighModel) *)
+Theorem C04_rayleigh_outputs_valid : forall (p : ry_params R) a s r a' s',
+  ry_ok p -> unitv (ry_dir p) -> canon s -> ry_sample p a s = Some ((r, a'), s') ->
+  i_action r = Scattered /\ i_energy r = ry_energy p /\ unitv (i_dir r) /\ i_secs r = [] /\ i_deposit r = 0 /\
+  a' = a /\ (length s' < length s)%nat.
+Proof. exact ry_outputs_valid. Qed.
+Print Assumptions C04_rayleigh_outputs_valid.
+
+Theorem C04_rayleigh_cosine_in_range : forall (p : ry_params R) probs, ry_ok p -> forall fuel s c s',
+  ry_loop fuel p (ry_weights p) probs s = Some (c, s') -> canon s -> -1 <= c <= 1 /\ canon s'.
+Proof. exact ry_loop_range. Qed.
+Print Assumptions C04_rayleigh_cosine_in_range.
+
+Theorem C04_rayleigh_accept_lower_bound : forall c t : R, -1 <= c -> t <= 1 / 2 ->
+  orb (Rltb (1 + c * c) (2 * t)) (Rltb c (- 1)) = false.
+Proof. exact ry_accept_lower_bound. Qed.
+Print Assumptions C04_rayleigh_accept_lower_bound.
+
+Theorem C04_rayleigh_terminates_on_low_draw : forall (p : ry_params R) ws probs f u0 u t s,
+  -1 <= ry_cost p ws probs u0 u -> t <= 1 / 2 ->
+  ry_loop (S f) p ws probs (u0 :: u :: t :: s) = Some (ry_cost p ws probs u0 u, s).
+Proof. exact ry_terminates_on_low_draw. Qed.
+Print Assumptions C04_rayleigh_terminates_on_low_draw.
+
+(** no positive bound on (0, 1e8] MeV: for f = (kfac E)^2 -> 0 only candidates with u <= f/(f+1) can be accepted *)
+Theorem C04_rayleigh_accept_lower_bound_refuted : forall E b u0 u : R,
+  0 < E -> 0 < b -> b * (E * E + 1) <= 2 / 100 -> E * E / (E * E + 1) < u < 1 ->
+  ry_ok (ry_low E b) /\
+  ry_cost (ry_low E b) (ry_weights (ry_low E b)) (ry_probs (ry_low E b)) u0 u < -1.
+Proof. exact ry_accept_lower_bound_refuted. Qed.
+Print Assumptions C04_rayleigh_accept_lower_bound_refuted.
+
+Theorem C04_rayleigh_candidate_below_minus_one_rejected : forall (p : ry_params R) ws probs f u0 u t s,
+  ry_cost p ws probs u0 u < -1 ->
+  ry_loop (S f) p ws probs (u0 :: u :: t :: s) = ry_loop f p ws probs s.
+Proof. exact ry_candidate_below_minus_one_rejected. Qed.
+Print Assumptions C04_rayleigh_candidate_below_minus_one_rejected.
+
+(** the table of RayleighModel.cc (C04/RayleighTable.v, regenerated from the source on every run by
+    translators/rayleigh_table.py) satisfies the data hypothesis, for all 100 elements *)
+Theorem C04_rayleigh_table_ok : length ry_table = 100%nat /\ Forall ry_elem_ok ry_table.
+Proof. exact ry_table_ok. Qed.
+Print Assumptions C04_rayleigh_table_ok.
+
+Theorem C04_rayleigh_table_elements_ok : forall (E kfac : R) (d : vec3 R), 0 < E -> 0 < kfac ->
+  Forall (fun e => let '(a, b, n) := e in ry_ok (RY E d a b n kfac)) ry_table.
+Proof. exact ry_table_elements_ok. Qed.
+Print Assumptions C04_rayleigh_table_elements_ok.
+
+(** ** detail/SBEnergySampler.hh, detail/RBEnergySampler.hh: the rejection loop over the cross-section oracle
+    (xs i e = value of the table / calculator at iteration i, xs_max = its bound) *)
+Theorem C04_brem_energy_loop_range : forall (tmin tmax dc : R) xs xs_max, 0 < tmin <= tmax -> 0 <= dc ->
+  forall fuel i s e s', be_loop fuel i (tmin * tmin) (tmax * tmax) dc xs xs_max s = Some (e, s') -> canon s ->
+  tmin <= e <= tmax /\ (tmin < tmax -> e < tmax) /\ canon s' /\ (length s' < length s)%nat.
+Proof. exact be_loop_range. Qed.
+Print Assumptions C04_brem_energy_loop_range.
+
+Theorem C04_sb_energy_in_range : forall (cut e_inc dc : R) xs xs_max s e s',
+  0 < cut < e_inc -> 0 <= dc -> canon s -> sb_energy cut e_inc dc xs xs_max s = Some (e, s') ->
+  cut <= e < e_inc /\ canon s' /\ (length s' < length s)%nat.
+Proof. exact sb_energy_in_range. Qed.
+Print Assumptions C04_sb_energy_in_range.
+
+Theorem C04_rb_energy_in_range : forall (cut e_inc dc : R) xs xs_max s e s',
+  0 < cut < e_inc -> e_inc <= 100000000 -> 0 <= dc -> canon s ->
+  rb_energy cut e_inc dc xs xs_max s = Some (e, s') ->
+  cut <= e < e_inc /\ canon s' /\ (length s' < length s)%nat.
+Proof. exact rb_energy_in_range. Qed.
+Print Assumptions C04_rb_energy_in_range.
+
+(** accept bound given the table maximum; two uniforms per iteration *)
+Theorem C04_brem_energy_terminates_on_low_draw : forall (tmin tmax dc : R) xs xs_max pmin f i u t s,
+  0 < tmin <= tmax -> 0 <= dc -> 0 < xs_max ->
+  (forall e, tmin <= e <= tmax -> pmin * xs_max <= xs i e) ->
+  canonical u -> 0 <= t <= pmin ->
+  exists e, be_loop (S f) i (tmin * tmin) (tmax * tmax) dc xs xs_max (u :: t :: s) = Some (e, s) /\
+    tmin <= e <= tmax.
+Proof. exact be_terminates_on_low_draw. Qed.
+Print Assumptions C04_brem_energy_terminates_on_low_draw.
+
+Theorem C04_brem_energy_zero_xs_rejected : forall (tmin_sq tmax_sq dc : R) xs xs_max f i u t s,
+  0 < xs_max -> 0 < t -> (forall e, xs i e = 0) ->
+  be_loop (S f) i tmin_sq tmax_sq dc xs xs_max (u :: t :: s) = be_loop f (S i) tmin_sq tmax_sq dc xs xs_max s.
+Proof. exact be_zero_xs_rejected. Qed.
+Print Assumptions C04_brem_energy_zero_xs_rejected.
+
+(** SeltzerBerger / RelativisticBrem interactors with the modelled energy loop, any cross-section oracle and any
+    angular sampler supported on [-1, 1]: the support hypothesis of C04_brem_outputs_valid is discharged *)
+Theorem C04_sb_outputs_valid : forall (angle : M R R) (cut e_inc m_inc dc : R) xs xs_max dir a s r a' s',
+  0 <= m_inc -> 0 < cut < e_inc -> 0 <= dc -> unitv dir -> canon s ->
+  (forall s0 c s1, canon s0 -> angle s0 = Some (c, s1) -> -1 <= c <= 1 /\ canon s1) ->
+  sb_sample angle cut e_inc dc xs xs_max dir (sqrt (e_inc * e_inc + 2 * m_inc * e_inc)) a s = Some ((r, a'), s') ->
+  i_action r <> Failed ->
+  i_action r = Scattered /\ 0 < i_energy r /\ unitv (i_dir r) /\ i_deposit r = 0 /\
+  e_inc = i_energy r + sec_energy_sum (i_secs r) + i_deposit r /\
+  exists sec, i_secs r = [sec] /\ s_pid sec = PGamma /\ cut <= s_energy sec < e_inc /\ unitv (s_dir sec).
+Proof. exact sb_outputs_valid. Qed.
+Print Assumptions C04_sb_outputs_valid.
+
+Theorem C04_rb_outputs_valid : forall (angle : M R R) (cut e_inc m_inc dc : R) xs xs_max dir a s r a' s',
+  0 <= m_inc -> 0 < cut < e_inc -> e_inc <= 100000000 -> 0 <= dc -> unitv dir -> canon s ->
+  (forall s0 c s1, canon s0 -> angle s0 = Some (c, s1) -> -1 <= c <= 1 /\ canon s1) ->
+  rb_sample angle cut e_inc dc xs xs_max dir (sqrt (e_inc * e_inc + 2 * m_inc * e_inc)) a s = Some ((r, a'), s') ->
+  i_action r <> Failed ->
+  i_action r = Scattered /\ 0 < i_energy r /\ unitv (i_dir r) /\ i_deposit r = 0 /\
+  e_inc = i_energy r + sec_energy_sum (i_secs r) + i_deposit r /\
+  exists sec, i_secs r = [sec] /\ s_pid sec = PGamma /\ cut <= s_energy sec < e_inc /\ unitv (s_dir sec).
+Proof. exact rb_outputs_valid. Qed.
+Print Assumptions C04_rb_outputs_valid.
+
+(** ** neutron/interactor/ChipsNeutronElasticInteractor.hh (two-body elastic final state; the CHIPS momentum
+    transfer Q^2 is an oracle with contract 0 <= Q^2 <= 4 p_cm^2 = MomentumTransferSampler's clamp(q_sq, 0, max_q_sq)) *)
+Theorem C04_chips_energy_conserved : forall (p : chips_params R) (q2 : R) s r s',
+  ch_ok p -> 0 <= q2 <= 4 * (ch_cm_p p * ch_cm_p p) -> chips_final p q2 s = Some (r, s') ->
+  i_action r = Scattered /\ i_secs r = [] /\
+  i_deposit r = q2 / (2 * ch_mtarget p) /\ i_energy r = ch_energy p - q2 / (2 * ch_mtarget p) /\
+  ch_energy p = i_energy r + sec_energy_sum (i_secs r) + i_deposit r /\
+  0 <= i_deposit r /\ 0 <= i_energy r <= ch_energy p /\ -1 <= ch_cos_theta p q2 <= 1 /\
+  exists u, s = u :: s'.
+Proof. exact chips_energy_conserved. Qed.
+Print Assumptions C04_chips_energy_conserved.
+
+(** the boosted neutron energy, for every Q^2 and azimuth: E' = E_n - Q^2/(2M) (two-body elastic kinematics) *)
+Theorem C04_chips_boosted_energy : forall (p : chips_params R), ch_ok p -> forall q2 phi : R,
+  fv_e (ch_boosted p q2 phi) = ch_mn p + ch_energy p - q2 / (2 * ch_mtarget p).
+Proof. exact ch_boosted_energy. Qed.
+Print Assumptions C04_chips_boosted_energy.
+
+Theorem C04_chips_max_recoil_le_energy : forall (p : chips_params R), ch_ok p ->
+  4 * (ch_cm_p p * ch_cm_p p) / (2 * ch_mtarget p) <= ch_energy p.
+Proof. exact ch_max_recoil. Qed.
+Print Assumptions C04_chips_max_recoil_le_energy.
+
+(** the interactor relies on the sampler's clamp: a negative Q^2 would be hidden by clamp_to_nonneg on the recoil
+    (E_out > T, deposit 0) *)
+Theorem C04_chips_negative_q2_breaks_energy : forall (p : chips_params R) (q2 u : R) s,
+  ch_ok p -> q2 < 0 ->
+  exists r, chips_final p q2 (u :: s) = Some (r, s) /\ i_deposit r = 0 /\ ch_energy p < i_energy r.
+Proof. exact chips_negative_q2_breaks_energy. Qed.
+Print Assumptions C04_chips_negative_q2_breaks_energy.
